@@ -111,14 +111,50 @@ def hexahedral_exact(o):
     from pv import npmodel
     g, coords, vals = linear_field(o, 8)
     ef = ElementFrame(coords, vals)
-    # all eight Jacobians regular: the all-True decision path (a singular corner is skipped by the code: `continue`, gradient stays 0.0)
+    # the path of a non-degenerate element: every branch condition is evaluated on a concrete witness element (a unit cube with rationally perturbed corners and a
+    # concrete linear field), whatever form the code's regularity test has (a first version fixed the path as "eight times the True branch": seed C19-c, which tests
+    # the determinant before inverting, would only have been noticed as a changed path shape)
+    import fractions
+    cube = [(0, 0, 0), (1, 0, 0), (1, 1, 0), (0, 1, 0), (0, 0, 1), (1, 0, 1), (1, 1, 1), (0, 1, 1)]
+    wit = []
+    for a_, (cx, cy, cz) in enumerate(cube):
+        for j, cc in enumerate((cx, cy, cz)):
+            wit.append((coords[a_][j], z3.RealVal(fractions.Fraction(cc) + fractions.Fraction((7 * a_ + 3 * j) % 11 - 5, 97))))
+    wit += [(g[0], z3.RealVal(2)), (g[1], z3.RealVal(-3)), (g[2], z3.RealVal(5)), (o.inputs['c0'], z3.RealVal(7))]
+    undecided = []
+
+    def oracle(cond):
+        v = z3.simplify(z3.substitute(cond, *wit))
+        if z3.is_true(v):
+            return True
+        if z3.is_false(v):
+            return False
+        undecided.append(cond)
+        return True
     o.I.run_id += 1
-    o.I.begin_path([True] * 8)
-    o.I.call(o.method(Obj(o.cls(G3)), '_compute_gradient_hexahedral'), [ef])
+    o.I.begin_path([])
+    o.I.oracle = oracle
+    o.I.keep_raw_conditions = True          # branch facts keep the determinant terms as the library models built them (they are abstracted below)
+    try:
+        o.I.call(o.method(Obj(o.cls(G3)), '_compute_gradient_hexahedral'), [ef])
+    finally:
+        o.I.oracle = None
+        o.I.keep_raw_conditions = False
     pc = list(o.I.path.pc)
     for a in o.I.used_assumptions:
         o.trusted(npmodel.A_TEXT.get(a, a))
-    o.prove('the path taken has exactly the eight decisions det J(corner) != 0', z3.BoolVal(len(pc) == 8 and o.I.dpos == 8))
+    o.shape('every branch condition is decided by the witness element', not undecided, [str(u)[:80] for u in undecided[:2]])
+    dets = []
+    for rec in o.I.inv_records:
+        if not any(rec['det'].eq(d) for d in dets):
+            dets.append(rec['det'])
+    o.prove('a Jacobian determinant is formed at each of the eight corners', z3.BoolVal(len(dets) == 8))
+    # the path is the one every non-degenerate element takes: each of its branch facts follows from "all eight corner Jacobians are regular" (the determinant
+    # terms are abstracted to variables: the implication must hold whatever their values are, e.g. however small a regular determinant is)
+    ds = [z3.Real(f'detJ_{k}') for k in range(len(dets))]
+    regular = z3.And(*[d != 0 for d in ds]) if ds else z3.BoolVal(True)
+    for k, fact in enumerate(pc):
+        o.prove(f'branch fact {k} of the path holds for every element with regular corner Jacobians', z3.Implies(regular, z3.substitute(fact, *zip(dets, ds))), only=[])
     o.prove('all eight corners were written', z3.BoolVal(sorted(ef.grads) == list(range(8))))
     for node in sorted(ef.grads):
         res = as_list(ef.grads[node])
@@ -194,22 +230,27 @@ def b_gradients(ctx):
     warnings.simplefilter('ignore')
     sizes = [(2, 1, 1), (2, 2, 1)] if ctx.tier == 'quick' else [(2, 1, 1), (2, 2, 1), (2, 2, 2), (3, 2, 2)]
     numberings = ['contiguous', 'shifted', 'gapped', 'permuted']
-    ctx.bound = f"block meshes {sizes} (hexahedra, and each cell split into 6 tetrahedra), node positions perturbed by <= 0.15, node ids x element ids in {numberings}^2, element order shuffled / not, 2 linear fields"
-    ctx.rule = "non-trivial: ids not 1..N in order; distinct by (operator, mesh, numbering)"
+    ctx.bound = f"block meshes {sizes} (hexahedra, and each cell split into 6 tetrahedra), node positions perturbed by <= 0.15, node ids x element ids in {numberings}^2, element order shuffled / not, 2 linear fields; the contiguous meshes also with coordinates scaled by 1e-3 and 1e3"
+    ctx.rule = "non-trivial: ids not 1..N in order, or scaled coordinates; distinct by (operator, mesh, numbering, scale)"
     ctx.exhaustive = True
     fields = [(np.array([1.0, -2.0, 0.5]), 3.0), (np.array([0.0, 0.0, 7.0]), -1.0)]
     for size, nn, en, shuffle, tets in itertools.product(sizes, numberings, numberings, (False, True), (False, True)):
         if not ctx.mine():
             continue
         rng = np.random.default_rng(ctx.seed * 0 + 5)
-        mesh = block_mesh(*size, rng, node_ids=nn, elem_ids=en, shuffle=shuffle, tets=tets)
-        for g, c in fields:
+        mesh0 = block_mesh(*size, rng, node_ids=nn, elem_ids=en, shuffle=shuffle, tets=tets)
+        # the unit of length is the user's: the same mesh in millimetre-sized and kilometre-sized coordinates (added after seed C19-c, which skipped corners whose
+        # Jacobian determinant is small in absolute terms)
+        scales = (1.0, 1e-3, 1e3) if (nn == 'contiguous' and en == 'contiguous' and not shuffle) else (1.0,)
+        for (g, c), scale in itertools.product(fields, scales):
+            mesh = mesh0.copy()
+            mesh[['x', 'y', 'z']] = mesh[['x', 'y', 'z']] * scale
             df = mesh.copy()
             df['f'] = df[['x', 'y', 'z']].to_numpy() @ g + c
             for op in ('gradient_3D', 'gradient'):
                 if op == 'gradient' and tets and size != (2, 1, 1):
                     continue
-                ctx.case(nn != 'contiguous' or en != 'contiguous' or shuffle, key=(op, size, nn, en, shuffle, tets, tuple(g)))
+                ctx.case(nn != 'contiguous' or en != 'contiguous' or shuffle or scale != 1.0, key=(op, size, nn, en, shuffle, tets, tuple(g), scale))
                 try:
                     res = getattr(df, op).gradient_of('f')
                 except Exception as e:   # noqa
@@ -223,8 +264,8 @@ def b_gradients(ctx):
                     continue
                 if not np.allclose(got, g, rtol=1e-7, atol=1e-7):
                     worst = np.abs(got - g).max()
-                    ctx.fail(f'C19:{op}:value:node-ids-{nn}', f'{op}: gradient of a linear field deviates by {worst:.3e} (mesh {size}, node ids {nn}, element ids {en}, shuffled {shuffle}, tets {tets})',
-                             {'mesh': size, 'node_ids': nn, 'elem_ids': en, 'shuffle': shuffle, 'tets': tets})
+                    ctx.fail(f'C19:{op}:value:node-ids-{nn}', f'{op}: gradient of a linear field deviates by {worst:.3e} (mesh {size} x {scale}, node ids {nn}, element ids {en}, shuffled {shuffle}, tets {tets})',
+                             {'mesh': size, 'node_ids': nn, 'elem_ids': en, 'shuffle': shuffle, 'tets': tets, 'scale': scale})
     ctx.sample({'mesh': (2, 2, 1), 'node_ids': 'gapped', 'field': 'f = x - 2y + 0.5z + 3'})
 
 
